@@ -234,6 +234,27 @@ def run(ctx, replay_case):
             pi += 1
         else:
             plan = None
+        if kind == "refuse" and "Did you mean" in err and args[0] == "convert":
+            # the suggestion is a usable one: not the rejected command line again, also when the rejected name is attached to its
+            # option with `=` (the README's spelling; seed C19l replaced whole argv tokens only)
+            joined, i_ = [], 0
+            while i_ < len(args):
+                if args[i_] in ("--type", "--command", "--in", "--out") and i_ + 1 < len(args):
+                    joined.append(args[i_] + "=" + args[i_ + 1])
+                    i_ += 2
+                else:
+                    joined.append(args[i_])
+                    i_ += 1
+            for form in (args, joined):
+                rc2, out2, err2 = (rc, out, err) if form is args else cli(form)
+                stats["suggestions"] += 1
+                prop_ = err2.split("Did you mean:", 1)[1].strip().split("\n")[0].strip() if "Did you mean:" in err2 else None
+                if rc2 == 0 or prop_ is None:
+                    viol("cli:refuse", f"`tpmstream {' '.join(form[:-1])} <file>` was not refused with a non-zero status and a suggestion (status {rc2})",
+                         {"argv": form, "status": rc2, "stderr": err2[:300]})
+                elif prop_.split(" ", 1)[-1].strip() == " ".join(form).strip():
+                    viol("cli:suggestion", f"`tpmstream {' '.join(form[:-1])} <file>`: the suggestion is the rejected command line itself",
+                         {"argv": form, "status": rc2, "stderr": err2[:400]})
         if kind == "refuse":
             stats["refusal"] += 1
             if rc == 0 or "Did you mean" not in err and "requires" not in err:
